@@ -26,7 +26,7 @@
 From Coq Require Import ZArith QArith Qminmax List.
 From VL Require Import Prelude.PyDict Model.GetNBest Model.Convert Model.Cardinal Proofs.Cardinal_proofs
      Proofs.MJ_proofs Proofs.JR_proofs Model.Condorcet Model.Star Proofs.Star_proofs
-     Model.Quota Model.AllocScore Proofs.AllocScore_proofs Proofs.MJ_removal_proofs Proofs.MJ_seats_proofs Proofs.Shape2_proofs Proofs.Star_seats_proofs.
+     Model.Quota Model.AllocScore Proofs.AllocScore_proofs Proofs.MJ_removal_proofs Proofs.MJ_seats_proofs Proofs.Shape2_proofs Proofs.Star_seats_proofs Proofs.ScoreDict_proofs.
 From Coq Require Import Permutation.
 Import ListNotations.
 Close Scope Q_scope.
@@ -547,6 +547,32 @@ Proof.
   eexists. split; [vm_compute; reflexivity|]. repeat split; vm_compute; reflexivity.
 Qed.
 
+(* ---- the well-formedness hypothesis of the majority-judgment theorems is met by every real input: for every configuration
+   (unscored_value, min_count, truncation) the corrected score dictionaries have counts >= 0 and numerically distinct
+   grades whenever the ballot counts are >= 0 and no ballot scores a candidate twice (profile_ok) *)
+Theorem C12_corrected_scores_ok : forall cf votes sc,
+  profile_ok votes -> corrected_scores cf votes = inl sc -> Forall cs_ok sc.
+Proof. exact corrected_scores_ok. Qed.
+
+(* ... so the n-seat default rule holds with hypotheses on the ballots only *)
+Theorem C12_mj_seats_default_wf : forall cf votes n sc r,
+  1 <= n -> profile_ok votes -> corrected_scores cf votes = inl sc ->
+  majority_judgment false cf votes n = inl r ->
+  (forall x, In x r -> exists c, x = Cand c) /\ length r = Nat.min n (length sc) /\ NoDup r /\
+  (forall c, In (Cand c) r -> In c (map fst sc)) /\
+  (forall c d c' d', In (Cand c) r -> In (c, d) sc -> In (c', d') sc -> ~ In (Cand c') r -> mj_lex_lt d' d).
+Proof.
+  intros cf votes n sc r Hn Hv Hsc Hr.
+  exact (mj_default_seats_rule cf votes n sc r Hn Hsc (corrected_scores_ok cf votes sc Hv Hsc) Hr).
+Qed.
+
+Example C12_profile_ok_example : profile_ok ex_seats_votes.
+Proof.
+  intros bn Hin. unfold ex_seats_votes in Hin. cbn [In] in Hin.
+  repeat (destruct Hin as [<-|Hin]; [split; [cbn; discriminate|cbn [fst map]; repeat constructor; cbn [In]; intuition discriminate]|]).
+  destruct Hin.
+Qed.
+
 Print Assumptions C12_combinations_complete.
 Print Assumptions C12_combinations_sound.
 Print Assumptions C12_pav_optimal.
@@ -590,3 +616,5 @@ Print Assumptions C12_mj_seats_round.
 Print Assumptions C12_star_table.
 Print Assumptions C12_star_seats.
 Print Assumptions C12_star_single_exact.
+Print Assumptions C12_corrected_scores_ok.
+Print Assumptions C12_mj_seats_default_wf.
